@@ -1,6 +1,7 @@
 import GrolProofs.SaveOrder
 import GrolProofs.SaveLines
 import GrolProofs.SaveRead
+import Grol.Lexer
 /-
 C14 — saved state loads back to the same state.
 
@@ -15,6 +16,7 @@ What is proved here, for every store (unbounded):
 * `one_line`: the printed form of a data value has no newline byte, so a data binding occupies
   exactly one line (`data_binding_line`);
 * `limit_skips`: with a length limit a binding's line is either the unlimited line or absent;
+* `QuoteRoundtrip` (the strconv.Quote / readString pair on ASCII) is STATED and checked on concrete strings only;
 * `int_roundtrip`: the printed form of EVERY int64 evaluates back to it (`-9223372036854775808`
   included, after fix 61e5755).
 The full property (`Statement`) needs the composition of the lexer, parser and evaluator models on
@@ -138,6 +140,29 @@ theorem limit_skips (fm : Fmt) (maxLen : Nat) (b : Binding) (line : Bytes)
 
 /-- (3) every int64 reads back from its printed form -/
 theorem int_roundtrip (i : Int64) : readIntText (intBytes i) = some i := Grol.Save.int_roundtrip i
+
+/-! ### (1) the Quote / readString pair — stated, not proved yet
+
+`quoteBody` is the modelled part of strconv.Quote (bytes < 0x80); `Lexer.readString` is the lexer model's
+string reader, called just after the opening quote.  The statement is the intended theorem (by induction
+on `s`, one case per shape of `quoteByte`: plain byte, two-byte escape, `\xHH`); it is true only after fix
+db71ff2 (before it `\a \b \f \v` decoded to the letters).  Checked here on concrete strings by kernel
+evaluation, and on every string of every case by the `saveload` and `lex` suites. -/
+
+/-- what `readString` returns on `"<quoted s>"<post>`, started after the opening quote:
+(decoded bytes, terminated, position after the closing quote) -/
+def readQuoted (body post : Bytes) : Bytes × Bool × Nat :=
+  let r := Grol.Lexer.readString { input := (34 :: (body ++ 34 :: post)).toArray, pos := 1 } 34
+  (r.1, r.2.1, r.2.2.pos)
+
+def QuoteRoundtrip : Prop :=
+  ∀ (s body post : Bytes), quoteBody s = some body → readQuoted body post = (s, true, body.length + 2)
+
+/-- bytes 7, 8, 11, 12 (the repaired escapes), quote, backslash, newline, CR, tab, NUL, DEL, letters -/
+example : (quoteBody [7, 8, 11, 12, 34, 92, 10, 13, 9, 0, 127, 65, 120]).map (fun body => readQuoted body [32, 34, 120]) =
+    some ([7, 8, 11, 12, 34, 92, 10, 13, 9, 0, 127, 65, 120], true, 30) := by decide
+
+example : (quoteBody []).map (fun body => readQuoted body []) = some ([], true, 2) := by decide
 
 /-! ### the property -/
 
